@@ -54,6 +54,14 @@ fn main() {
                         let _ = b.alloc_slice_try_fill_iter((0..2).map(|i| if i == 1 { Err::<(), u8>(7) } else { Ok(()) }));
                         let _ = b.alloc_slice_fill_iter([(), ()].into_iter());
                         let _ = b.try_alloc_try_with(|| Err::<(), u8>(1));
+                        // failing initialisers whose `Result` is itself zero-sized: the rewind happens "inside" the static empty chunk
+                        let b = Bump::new();
+                        let _ = b.alloc_try_with(|| Err::<std::convert::Infallible, ()>(()));
+                        let _ = b.try_alloc_try_with(|| Err::<std::convert::Infallible, ()>(()));
+                        let b: Bump<8> = Bump::with_min_align();
+                        let _ = b.try_alloc_try_with(|| Err::<std::convert::Infallible, ()>(()));
+                        let _ = b.alloc_try_with(|| Err::<std::convert::Infallible, ()>(()));
+                        let b = Bump::new();
                         let mut z: BVec<()> = BVec::with_capacity_in(4, &b);
                         z.push(());
                         z.extend_from_slice(&[(), ()]);
